@@ -258,6 +258,21 @@ func c05Run(j *orch.Job, r *orch.Result) error {
 				addMut("rcde-recovery-byte base="+b.Name, b.At+1, rebuild(config.TransactionChain, e2, content))
 			}
 		}
+		// bytes inserted into / removed from the content under the original signature: JSON whitespace at
+		// every position (a reader that normalises the content before checking the signature would accept
+		// these as fresh entries), other bytes, and whitespace around the document
+		ws := []byte{' ', '\n', '\t', '\r'}
+		for pos := 0; pos <= len(content); pos++ {
+			c2 := append(append(append([]byte{}, content[:pos]...), ws[pos%4]), content[pos:]...)
+			addMut("content-whitespace-inserted base="+b.Name, b.At+uint32(pos%2), rebuild(config.TransactionChain, ext, c2))
+			if pos%7 == 3 && pos < len(content) {
+				c3 := append(append([]byte{}, content[:pos]...), content[pos+1:]...)
+				addMut("content-byte-removed base="+b.Name, b.At+1, rebuild(config.TransactionChain, ext, c3))
+				c4 := append(append(append([]byte{}, content[:pos]...), content[pos]), content[pos:]...)
+				addMut("content-byte-doubled base="+b.Name, b.At+1, rebuild(config.TransactionChain, ext, c4))
+			}
+		}
+		addMut("content-whitespace-around base="+b.Name, b.At+1, rebuild(config.TransactionChain, ext, append(append([]byte("  \n"), content...), []byte("\n\n ")...)))
 		// structural forgeries
 		addMut("sig-rcd-swapped base="+b.Name, b.At, rebuild(config.TransactionChain, [][]byte{ext[0], ext[2], ext[1]}, content))
 		addMut("missing-sig base="+b.Name, b.At, rebuild(config.TransactionChain, [][]byte{ext[0], ext[1]}, content))
